@@ -3,10 +3,28 @@
 set -u
 ID="$1"; WORK="$2"; shift 2
 cd "$VERIF_DIR/harness" || exit 2
-if ! go build -tags verif -o "$WORK/vrun" ./cmd/vrun 2>"$WORK/build.err"; then
-  echo "HARNESS-ERROR: harness does not build against the current tree:" >&2
-  head -30 "$WORK/build.err" >&2
-  exit 2
+case "$ID" in
+  C09|C10|C11|C12|C18|C19|PROBE) MODE=instr ;;
+  *) MODE=plain ;;
+esac
+if [ "$MODE" = instr ]; then
+  go build -o "$WORK/instr" ./cmd/instr 2>"$WORK/build.err" || { echo "HARNESS-ERROR: instrumenter does not build" >&2; cat "$WORK/build.err" >&2; exit 2; }
+  "$WORK/instr" -repo "$REPO" -out "$WORK/ov" -rt "$VERIF_DIR/rt/verifrt" > "$WORK/instr.log" 2>&1 || { echo "HARNESS-ERROR: instrumenter failed" >&2; cat "$WORK/instr.log" >&2; exit 2; }
+  export VERIF_POINTS="$WORK/ov/points.json"
+  if [ "$ID" = C11 ] || [ "$ID" = C18 ]; then
+    if go build -race -tags verif -o "$WORK/racemon" ./cmd/racemon 2>"$WORK/race.err"; then export VERIF_RACEMON="$WORK/racemon"; else echo "note: race monitor does not build: $(head -3 "$WORK/race.err")" >&2; fi
+  fi
+  if ! go build -tags "verif instr" -overlay "$WORK/ov/overlay.json" -o "$WORK/vrun" ./cmd/vrun 2>"$WORK/build.err"; then
+    echo "HARNESS-ERROR: instrumented harness does not build against the current tree:" >&2
+    head -40 "$WORK/build.err" >&2
+    exit 2
+  fi
+else
+  if ! go build -tags verif -o "$WORK/vrun" ./cmd/vrun 2>"$WORK/build.err"; then
+    echo "HARNESS-ERROR: harness does not build against the current tree:" >&2
+    head -30 "$WORK/build.err" >&2
+    exit 2
+  fi
 fi
 cd "$VERIF_DIR" || exit 2
 "$WORK/vrun" "$@" "$ID"
